@@ -5,6 +5,7 @@ package reader
 import (
 	clientv3 "go.etcd.io/etcd/client/v3"
 
+	"github.com/milvus-io/milvus/pkg/mq/msgdispatcher"
 	"github.com/milvus-io/milvus/pkg/mq/msgstream"
 
 	"github.com/zilliztech/milvus-cdc/core/config"
@@ -65,6 +66,17 @@ var VerifEtcdClient func(cfg config.EtcdServerConfig) *clientv3.Client
 func verifEtcdClient(cfg config.EtcdServerConfig) *clientv3.Client {
 	if f := VerifEtcdClient; f != nil {
 		return f(cfg)
+	}
+	return nil
+}
+
+// VerifDispatcherClient, when set by a simulation harness, supplies the message
+// dispatcher client instead of one over a real Pulsar/Kafka factory.
+var VerifDispatcherClient func(mqConfig config.MQConfig, ttMsgStream bool) msgdispatcher.Client
+
+func verifDispatcherClient(mqConfig config.MQConfig, ttMsgStream bool) msgdispatcher.Client {
+	if f := VerifDispatcherClient; f != nil {
+		return f(mqConfig, ttMsgStream)
 	}
 	return nil
 }
